@@ -723,3 +723,15 @@ CAMLprim value vp_huge_call(value alg, value decompress, value size)
 	munmap(p, n);
 	return Val_long(r == mtbl_res_success ? 1 : 0);
 }
+
+/* coverage builds only (tools/coverage.sh): forked children leave through _exit, which skips gcov's atexit hook */
+#ifdef VP_COVERAGE
+extern void __gcov_dump(void);
+#endif
+CAMLprim value vp_cov_dump(value unit)
+{
+#ifdef VP_COVERAGE
+	__gcov_dump();
+#endif
+	return Val_unit;
+}
